@@ -311,3 +311,72 @@ def shape_lemma_library(run):
     if bad:
         from vlib.common import CheckerError
         raise CheckerError("shape lemmas not proved: %s" % bad)
+
+
+# ------------------------------------------------------------ the bridge lemma (Lean 4 kernel)
+BRIDGE_PINNED = [
+    "inductive UBTree where\n  | leaf : UBTree\n  | un   : UBTree → UBTree\n  | bin  : UBTree → UBTree → UBTree",
+    "def pre : UBTree → List Nat\n  | .leaf    => [0]\n  | .un t    => 1 :: pre t\n  | .bin l r => 2 :: (pre l ++ pre r)",
+    "def need (s : List Nat) : Int := 1 + (s.map (fun (a : Nat) => (a : Int) - 1)).sum",
+    "def valid (s : List Nat) : Prop :=\n  (∀ k, k < s.length → need (s.take k) ≥ 1) ∧ need s = 0",
+    "theorem bridge (s : List Nat) (h : ∀ a ∈ s, a ≤ 2) :\n    valid s ↔ ∃ t : UBTree, pre t = s ∧ ∀ t' : UBTree, pre t' = s → t' = t := by",
+]
+MOTZKIN = [0, 1, 1, 2, 4, 9, 21, 51, 127]
+
+
+def lean_bridge(run):
+    """The bridge between the spec function `valid` (need counter) and the statement of C01 ("all trees, each once"): a string over {0,1,2} is valid
+    iff it is the preorder arity sequence of exactly one unary-binary tree.  /verif/lean/Bridge.lean (core Lean 4, no imports) is re-checked by the
+    Lean kernel on every run; the statement is pinned (the definitions and the theorem must appear verbatim), the file must not contain sorry / axiom /
+    native_decide / unsafe, and `#print axioms` must not list sorryAx.  A decidable version of `valid`, proved equivalent, is evaluated by Lean on all
+    strings of length <= 8: the counts must be the ones the independent oracle of the bounded part enumerates.  Returns True when the lemma is proved;
+    on any failure it stays an assumption (never a violation: the lemma is about spec functions, not about /repo)."""
+    import os, re, shutil, subprocess
+    fq = "lemma::bridge (valid arity string <=> preorder code of exactly one unary-binary tree)"
+    path = os.path.join(os.path.dirname(os.path.dirname(os.path.abspath(__file__))), "lean", "Bridge.lean")
+    lean = shutil.which("lean")
+    why = None
+    t0 = time.time()
+    out = ""
+    if lean is None or not os.path.exists(path):
+        why = "lean or lean/Bridge.lean not present"
+    else:
+        text = open(path, encoding="utf-8").read()
+        body = re.sub(r"/-.*?-/", "", text, flags=re.S)
+        body = "\n".join(l for l in body.splitlines() if not l.strip().startswith("--") and not l.startswith("#print axioms"))
+        banned = [w for w in ("sorry", "axiom", "native_decide", "unsafe", "import ", "implemented_by", "extern", "opaque") if re.search(r"\b%s" % re.escape(w), body)]
+        missing = [p.splitlines()[0] for p in BRIDGE_PINNED if p not in text]
+        if banned:
+            why = "Bridge.lean contains %s" % banned
+        elif missing:
+            why = "pinned statement changed: %s" % missing
+        else:
+            try:
+                p = subprocess.run([lean, path], stdout=subprocess.PIPE, stderr=subprocess.STDOUT, timeout=300, cwd=os.path.dirname(path))
+                out = p.stdout.decode(errors="replace")
+                ax = re.search(r"'bridge' depends on axioms: \[([^\]]*)\]", out)
+                if p.returncode != 0:
+                    why = "lean exit %d: %s" % (p.returncode, out[-400:])
+                elif "sorryAx" in out or "error" in out or "declaration uses" in out:
+                    why = "lean output: %s" % out[-400:]
+                elif ax is None or not set(x.strip() for x in ax.group(1).split(",")) <= {"propext", "Classical.choice", "Quot.sound"}:
+                    why = "unexpected axioms: %s" % (ax.group(0) if ax else out[-200:])
+                elif str(MOTZKIN) not in out:
+                    why = "counts of valid strings evaluated by Lean differ from %s: %s" % (MOTZKIN, out[-300:])
+            except (subprocess.TimeoutExpired, OSError) as e:
+                why = "lean did not finish: %s" % e
+    dt = time.time() - t0
+    if why is None:
+        run.functions.setdefault(fq, {"file": "/verif/lean/Bridge.lean", "dropped": [], "obligations": 0, "discharged": 0,
+                                      "note": "spec-level lemma (no code of /repo): proved in Lean 4 (core, no imports), re-checked by the kernel on every run; "
+                                              "axioms: propext, Classical.choice, Quot.sound"})
+        run.add_obligation("lemma/bridge: valid s <-> exists exactly one tree t with pre t = s (entries <= 2)", fq, "proved", "lean-4.33.0 kernel", dt,
+                           "Lukasiewicz: the need-counter condition characterises preorder arity sequences; uniqueness of the tree")
+        run.add_obligation("lemma/validB_iff + evaluation: the decidable version of valid accepts %s strings of length 0..8" % MOTZKIN, fq, "proved", "lean-4.33.0 kernel + #eval", 0.0,
+                           "cross-check of the Lean text of the definition against the oracle's counts")
+        run.assume("the SMT text of the validity counter (contracts/c_generator.py, pyvc/lemmas.py) and the Lean text (lean/Bridge.lean: need, valid) are the same definition "
+                   "(read side by side; both are evaluated on all strings of length <= 8 with the same counts)")
+        run.trust("lean", "Lean 4.33.0 kernel (core library only)")
+        return True
+    run.assume("bridge lemma: need-counter validity <=> preorder arity sequence of exactly one unary-binary tree (classical; the Lean proof could not be re-checked in this run: %s)" % why)
+    return False
